@@ -9,11 +9,13 @@ PROPS["C06"] = {
             {"name": "split", "run": "^TestSplitPartition$", "checks": 36000, "shards": 4},
             {"name": "dispatch", "run": "^TestDispatchRoutesByPartIndex$", "checks": 9000, "shards": 2},
             {"name": "splitlarge", "run": "^TestSplitLargeBatch$", "checks": 240, "shards": 8},
+            {"name": "server", "run": "^TestWholeServer$", "checks": 96, "shards": 16},
         ],
         "thorough": [
             {"name": "split", "run": "^TestSplitPartition$", "checks": 800000, "shards": 12, "timeout": 1500},
             {"name": "dispatch", "run": "^TestDispatchRoutesByPartIndex$", "checks": 120000, "shards": 4, "timeout": 1500},
             {"name": "splitlarge", "run": "^TestSplitLargeBatch$", "checks": 16000, "shards": 16, "timeout": 1500},
+            {"name": "server", "run": "^TestWholeServer$", "checks": 6400, "shards": 16, "timeout": 1700},
         ],
     },
     "assumptions": [
@@ -46,6 +48,7 @@ PROPS["C02"] = {
             {"name": "arbitrary", "run": "^TestArbitraryStrings$", "checks": 96000, "shards": 3},
             {"name": "tagbuf", "run": "^TestTagBufferIndependence$", "checks": 48000, "shards": 3},
             {"name": "parser", "run": "^TestLinesThroughParser$", "checks": 24000, "shards": 4},
+            {"name": "server", "run": "^TestLinesThroughServer$", "checks": 192, "shards": 16},
         ],
         "thorough": [
             {"name": "corpus", "kind": "plain", "run": "^TestSeedCorpus$"},
@@ -54,6 +57,7 @@ PROPS["C02"] = {
             {"name": "arbitrary", "run": "^TestArbitraryStrings$", "checks": 1600000, "shards": 4, "timeout": 1700},
             {"name": "tagbuf", "run": "^TestTagBufferIndependence$", "checks": 1600000, "shards": 4, "timeout": 1700},
             {"name": "parser", "run": "^TestLinesThroughParser$", "checks": 800000, "shards": 4, "timeout": 1700},
+            {"name": "server", "run": "^TestLinesThroughServer$", "checks": 8000, "shards": 16, "timeout": 1700},
             {"name": "fuzz", "kind": "fuzz", "fuzz": "FuzzLexImplications", "time": "240s", "timeout": 600},
         ],
     },
@@ -73,6 +77,7 @@ PROPS["C03"] = {
             {"name": "http", "run": "^TestHTTPIngestion$", "checks": 12000, "shards": 5, "timeout": 900, "shrinktime": "5s"},
             {"name": "wire", "run": "^TestHTTPWire$", "checks": 4000, "shards": 4, "timeout": 900, "shrinktime": "5s"},
             {"name": "udp", "run": "^TestUDPReceiver$", "checks": 3000, "shards": 4},
+            {"name": "binary", "run": "^TestBinaryConfiguredIngestion$", "checks": 64, "shards": 16, "binary": True, "shrinktime": "1s"},
         ],
         "thorough": [
             {"name": "seeds", "kind": "plain", "run": "^(TestDatagramSeeds|TestHeaderBoundaryPairs)$"},
@@ -81,6 +86,7 @@ PROPS["C03"] = {
             {"name": "http", "run": "^TestHTTPIngestion$", "checks": 200000, "shards": 5, "timeout": 1700},
             {"name": "wire", "run": "^TestHTTPWire$", "checks": 120000, "shards": 6, "timeout": 1700},
             {"name": "udp", "run": "^TestUDPReceiver$", "checks": 120000, "shards": 6, "timeout": 1700},
+            {"name": "binary", "run": "^TestBinaryConfiguredIngestion$", "checks": 3200, "shards": 16, "binary": True, "shrinktime": "1s", "timeout": 1700},
             {"name": "fuzz-datagram", "kind": "fuzz", "fuzz": "FuzzDatagram", "time": "180s", "timeout": 500},
             {"name": "fuzz-http-raw", "kind": "fuzz", "fuzz": "FuzzHTTPRaw", "time": "120s", "timeout": 500},
             {"name": "fuzz-http-event", "kind": "fuzz", "fuzz": "FuzzHTTPEvent", "time": "120s", "timeout": 500},
@@ -99,15 +105,17 @@ PROPS["C08"] = {
         "quick": [
             {"name": "stats", "run": "^TestTimerStatistics$", "checks": 128000, "shards": 8},
             {"name": "hist", "run": "^TestHistograms$", "checks": 64000, "shards": 4},
+            {"name": "binary", "run": "^TestBinaryPercentThresholds$", "checks": 64, "shards": 16, "binary": True, "shrinktime": "1s"},
         ],
         "thorough": [
             {"name": "stats", "run": "^TestTimerStatistics$", "checks": 1600000, "shards": 12, "timeout": 1700},
             {"name": "hist", "run": "^TestHistograms$", "checks": 800000, "shards": 4, "timeout": 1700},
+            {"name": "binary", "run": "^TestBinaryPercentThresholds$", "checks": 3200, "shards": 16, "binary": True, "shrinktime": "1s", "timeout": 1700},
         ],
     },
     "assumptions": [
         "floating-point tolerance |got-want| <= 1e-9 * (sum of |v| resp. sum of v^2) + 1e-300 for sums, means and percentile sums (the code forms upper-tail sums by subtraction); min, max, median and boundaries exact",
-        "k = round(|p|*n/100) evaluated in integers; at exact .5 ties (|p|*n mod 100 == 50) both neighbours are accepted (the code rounds a floating-point product)",
+        "k = round(|p|*n/100) evaluated in integers; at exact .5 ties (|p|*n mod 100 == 50) with |p| not in {25, 50, 75, 100} both neighbours are accepted (the code rounds a floating-point product)",
         "count = round(sum 1/rate): when the sum is within 1e-9 of a .5 tie either neighbour is accepted (floating-point addition order)",
         "which buckets survive a limit below the number of listed buckets is not stated by the property: only 'at most limit finite buckets, all from the tag, +Inf present, counts right' is required there",
         "percentile 0 and NaN bucket items are outside the domain",
@@ -133,8 +141,10 @@ PROPS["C09"] = {
 PROPS["C04"] = {
     "pkg": "c04", "level": "exploration", "crash_is_violation": True,
     "jobs": {
-        "quick": [{"name": "flush", "run": "^TestFlushNeverCrashes$", "checks": 1600, "shards": 8, "steps": 12}],
-        "thorough": [{"name": "flush", "run": "^TestFlushNeverCrashes$", "checks": 160000, "shards": 16, "steps": 20, "timeout": 1700}],
+        "quick": [{"name": "flush", "run": "^TestFlushNeverCrashes$", "checks": 1600, "shards": 8, "steps": 12},
+                  {"name": "binary", "run": "^TestBinaryFlushSurvivesConfiguration$", "checks": 64, "shards": 16, "binary": True, "shrinktime": "1s"}],
+        "thorough": [{"name": "flush", "run": "^TestFlushNeverCrashes$", "checks": 160000, "shards": 16, "steps": 20, "timeout": 1700},
+                     {"name": "binary", "run": "^TestBinaryFlushSurvivesConfiguration$", "checks": 3200, "shards": 16, "binary": True, "shrinktime": "1s", "timeout": 1700}],
     },
     "assumptions": [
         "HTTP transports answer 2xx at once and socket listeners accept and read everything (transport faults are C16's subject)",
@@ -147,9 +157,11 @@ PROPS["C05"] = {
     "pkg": "c05", "level": "exploration",
     "jobs": {
         "quick": [{"name": "datagram", "run": "^TestDatagramLinesIndependent$", "checks": 24000, "shards": 12},
-                  {"name": "udpqueue", "run": "^TestUDPQueuedDatagrams$", "checks": 1200, "shards": 4}],
+                  {"name": "udpqueue", "run": "^TestUDPQueuedDatagrams$", "checks": 1200, "shards": 4},
+                  {"name": "binary", "run": "^TestBinaryIgnoreHost$", "checks": 64, "shards": 16, "binary": True, "shrinktime": "1s"}],
         "thorough": [{"name": "datagram", "run": "^TestDatagramLinesIndependent$", "checks": 640000, "shards": 16, "timeout": 1700},
-                     {"name": "udpqueue", "run": "^TestUDPQueuedDatagrams$", "checks": 80000, "shards": 16, "timeout": 1700}],
+                     {"name": "udpqueue", "run": "^TestUDPQueuedDatagrams$", "checks": 80000, "shards": 16, "timeout": 1700},
+                     {"name": "binary", "run": "^TestBinaryIgnoreHost$", "checks": 3200, "shards": 16, "binary": True, "shrinktime": "1s", "timeout": 1700}],
     },
     "assumptions": [
         "an empty line between two newlines counts as a rejected line (it is lexed and rejected); the empty remainder after a trailing newline is not a line",
@@ -228,11 +240,15 @@ PROPS["C01"] = {
             {"name": "pipeline", "run": "^TestPipelineConservation$", "checks": 2400, "shards": 8},
             {"name": "pipeline-race", "run": "^TestPipelineConservation$", "checks": 320, "shards": 4, "race": True},
             {"name": "history", "run": "^TestShardHistory$", "checks": 8000, "shards": 4, "steps": 40},
+            {"name": "server", "run": "^TestWholeServer$", "checks": 96, "shards": 16},
+            {"name": "ownsocket", "run": "^TestServerOwnSocket$", "checks": 48, "shards": 16},
         ],
         "thorough": [
             {"name": "pipeline", "run": "^TestPipelineConservation$", "checks": 120000, "shards": 8, "timeout": 1700},
             {"name": "pipeline-race", "run": "^TestPipelineConservation$", "checks": 16000, "shards": 4, "race": True, "timeout": 1700},
             {"name": "history", "run": "^TestShardHistory$", "checks": 400000, "shards": 4, "steps": 60, "timeout": 1700},
+            {"name": "server", "run": "^TestWholeServer$", "checks": 6400, "shards": 16, "timeout": 1700},
+            {"name": "ownsocket", "run": "^TestServerOwnSocket$", "checks": 2400, "shards": 16, "timeout": 1700},
         ],
     },
     "assumptions": [
@@ -246,8 +262,12 @@ PROPS["C01"] = {
 PROPS["C11"] = {
     "pkg": "c11", "level": "exploration",
     "jobs": {
-        "quick": [{"name": "cloud", "run": "^TestCloudStageHistories$", "checks": 6400, "shards": 16, "steps": 25}],
-        "thorough": [{"name": "cloud", "run": "^TestCloudStageHistories$", "checks": 320000, "shards": 16, "steps": 40, "timeout": 1700}],
+        "quick": [{"name": "cloud", "run": "^TestCloudStageHistories$", "checks": 6400, "shards": 16, "steps": 25},
+            {"name": "server", "run": "^TestWholeServer$", "checks": 96, "shards": 16},
+        ],
+        "thorough": [{"name": "cloud", "run": "^TestCloudStageHistories$", "checks": 320000, "shards": 16, "steps": 40, "timeout": 1700},
+            {"name": "server", "run": "^TestWholeServer$", "checks": 6400, "shards": 16, "timeout": 1700},
+        ],
     },
     "assumptions": [
         "the cache contract: an answer on InfoSource follows a request on IpSink (completions are only generated for sources the stage actually requested)",
@@ -276,10 +296,12 @@ PROPS["C13"] = {
     "jobs": {
         "quick": [{"name": "pods", "run": "^TestPodHistories$", "checks": 4800, "shards": 12, "steps": 32},
                   {"name": "relist", "run": "^TestPodHistories$", "checks": 400, "shards": 16, "steps": 24, "env": {"C13_RELIST": "1"}},
-                  {"name": "inflight", "run": "^TestLookupInFlightDuringEvent$", "checks": 1600, "shards": 8}],
+                  {"name": "inflight", "run": "^TestLookupInFlightDuringEvent$", "checks": 1600, "shards": 8},
+                  {"name": "fromconfig", "run": "^TestProviderFromConfiguration$", "checks": 160, "shards": 8}],
         "thorough": [{"name": "pods", "run": "^TestPodHistories$", "checks": 128000, "shards": 16, "steps": 30, "timeout": 1700},
                      {"name": "relist", "run": "^TestPodHistories$", "checks": 12000, "shards": 16, "steps": 24, "timeout": 1700, "env": {"C13_RELIST": "1"}},
-                     {"name": "inflight", "run": "^TestLookupInFlightDuringEvent$", "checks": 64000, "shards": 16, "timeout": 1700}],
+                     {"name": "inflight", "run": "^TestLookupInFlightDuringEvent$", "checks": 64000, "shards": 16, "timeout": 1700},
+                     {"name": "fromconfig", "run": "^TestProviderFromConfiguration$", "checks": 8000, "shards": 16, "timeout": 1700}],
     },
     "assumptions": [
         "the history layers issue lookups only at quiescent points (after the sentinel barrier), which is what 'after any history has been observed' states; the window between the informer's index update and the provider's invalidation callback is not explored",
@@ -375,6 +397,7 @@ PROPS["C19"] = {
             {"name": "pipeline", "run": "^TestEventsThroughPipeline$", "checks": 9600, "shards": 8},
             {"name": "gated", "run": "^TestWaitForEventsGated$", "checks": 1920, "shards": 8},
             {"name": "forwarder", "run": "^TestEventsForwarderMode$", "checks": 1600, "shards": 8},
+            {"name": "server", "run": "^TestWholeServer$", "checks": 96, "shards": 16},
         ],
         "thorough": [
             {"name": "probes", "kind": "plain", "run": "^TestProbe"},
@@ -382,6 +405,7 @@ PROPS["C19"] = {
             {"name": "pipeline-race", "run": "^TestEventsThroughPipeline$", "checks": 8000, "shards": 4, "race": True, "timeout": 1700},
             {"name": "gated", "run": "^TestWaitForEventsGated$", "checks": 16000, "shards": 8, "timeout": 1700},
             {"name": "forwarder", "run": "^TestEventsForwarderMode$", "checks": 40000, "shards": 16, "timeout": 1700},
+            {"name": "server", "run": "^TestWholeServer$", "checks": 6400, "shards": 16, "timeout": 1700},
         ],
     },
     "assumptions": [
